@@ -23,12 +23,55 @@ CLAIM = dict(
 )
 
 
+def inflate_table_rules(ck, P):
+    """validations inside inflate_table (RFC 1951 §3.2.2: a code-length set must be neither over-subscribed nor
+    incomplete, except the single-code distance/length case zlib allows) and its table-space limits"""
+    from .. import atoms, sig, mir, shape
+    from ..core import where
+    R = "ATOM/inflate-table"
+    fn = P.fn(decoders.INFTREES)
+    if not ck.anchor("fn inflate_table", fn):
+        return
+    ck.use_fn(fn)
+    rets = {}
+    for bi, si, lhs, rv, s in fn.assignments():
+        if lhs["l"] == 0 and "p" not in lhs and rv.get("k") == "agg":
+            rets.setdefault(rv.get("variant"), []).append(bi)
+    inv = rets.get("InvalidCode", [])
+    ck.decide(len(inv) >= 2, R, "InvalidCode-sites", "over-subscribed and incomplete sets both rejected", "inflate_table has %d InvalidCode results (needs over-subscribed and incomplete)" % len(inv), where(fn))
+    over = inc = False
+    for b in inv:
+        es, ds = sig.site_guards(fn, b)
+        for s_ in es + ds:
+            if s_.rel in ("is", "isnot") and any("checked_sub" in c for c in s_.calls) and "Shl" in s_.ops:
+                over = True      # (left << 1).checked_sub(count) is None
+        gs = [g for g, lvl in sig.backward_guards(fn, b, depth=3)]
+        if any(g.rel == "Le" and 1 in g.lo_consts and "left" in g.hi_names for g in gs) or any(g.rel == "Ne" and "left" in g.names and 0 in g.consts for g in gs):
+            if any(g.rel == "Ne" and "max" in g.names and 1 in g.consts for g in gs) or any("Codes" in (g.variants or ()) or "Codes" in g.names for g in gs):
+                inc = True
+    ck.decide(over, R, "over-subscribed", "(left << 1).checked_sub(count[len]) failing is InvalidCode", "the over-subscription test of inflate_table is gone", where(fn))
+    ck.decide(inc, R, "incomplete", "left > 0 && (Codes || max != 1) is InvalidCode", "the incomplete-set test of inflate_table lost a condition", where(fn))
+    en = rets.get("EnoughIsNotEnough", [])
+    names = set()
+    for b in en:
+        for g, lvl in sig.backward_guards(fn, b, depth=2):
+            names |= set(g.names)
+    ck.decide(len(en) >= 4 and {"ENOUGH_LENS", "ENOUGH_DISTS"} <= names, R, "table-space", "used > ENOUGH_LENS / ENOUGH_DISTS checked before and during sub-table creation",
+              "inflate_table's table-space checks against ENOUGH_LENS/ENOUGH_DISTS changed (%d sites, names %s)" % (len(en), sorted(n for n in names if n.startswith("ENOUGH"))), where(fn))
+    # the three code kinds use the right base/extra tables and end-of-block threshold
+    named = shape.fn_named_consts(fn)
+    ck.decide({"LBASE", "LEXT", "DBASE", "DEXT"} <= named, R, "tables", "uses LBASE/LEXT and DBASE/DEXT", "inflate_table no longer references all four base/extra tables", where(fn))
+    cs = shape.fn_int_consts(fn)
+    ck.decide({257, 20, 0b01100000} <= cs, R, "constants", "match thresholds 257/20, end-of-block op 96", "inflate_table constants changed (257, 20, 96 expected)", where(fn))
+
+
 def run(ck):
     P = prog("K1")
     ck.configs.add("K1")
     n = decoders.check_rejections(ck, P, "ATOM/rejection")
     ck.floor("ATOM/rejection", n, 40)
     decoders.check_table_fields(ck, P, "ATOM/header-fields")
+    inflate_table_rules(ck, P)
     m = tables.decoder_tables(ck, P, "CONST/dec-rfc")
     ck.extra["table_entries_compared"] = m
     ck.extra["exhaustive"] = True
